@@ -16,12 +16,25 @@ def build(ctx, n_nests=None):
     n = rng.choice([0, 1, 2, 3, 5])
     subs = []
     k = n_nests or rng.choice([1, 2])
-    idx_kind = rng.choice(["default", "default", "named", "labels"])
+    idx_kind = rng.choice(["default", "default", "named", "labels", "int_labels"])
+    if idx_kind == "int_labels":
+        # unnamed integer labels that are not the row numbers: repeated / unsorted / sorted with gaps, and 0..n-1 with one
+        # label replaced by its neighbour (sorted, starts at 0, ends at n-1, and still not the default index)
+        if n >= 3 and rng.random() < 0.5:
+            vals = list(range(n))
+            i = rng.randint(1, n - 2)
+            vals[i] = vals[i + rng.choice([-1, 1])]
+        else:
+            vals = gen.rand_labels(rng, n, kind="int", pattern=rng.choice(["dup_sorted", "unique_unsorted", "desc_dups", "unique_sorted"]))
+        if vals == list(range(n)):
+            idx_kind = "default"
+        else:
+            index = pd.Index(vals, dtype="int64")
     if idx_kind == "default":
         index = pd.RangeIndex(n)
     elif idx_kind == "named":
         index = pd.Index(gen.rand_labels(rng, n, kind="int", pattern="unique_unsorted"), name="obj_id", dtype="int64")
-    else:
+    elif idx_kind == "labels":
         index = pd.Index(gen.rand_labels(rng, n, kind="str", pattern="dup_unsorted"), dtype=object)
     # column labels: identifier-like, with blanks / punctuation (legal: anything without '.' or '`'), or one label a
     # string prefix of another
